@@ -232,6 +232,8 @@ enum Extras {
     IntervalWithSlow,
     DelayedExec,
     Subscribed,
+    /// subscribed, and one publication has already been delivered to it
+    SubscribedPublished,
 }
 
 fn offset_ids(ops: &[Op], c: usize) -> Vec<Op> {
@@ -292,10 +294,14 @@ fn make_case_s(picks: &[usize], extras: Extras, mailbox: Mailbox, early: u32, bo
         }
         Extras::DelayedExec => role.started_actions.push(Action::DelayedExec { timer: 1, delay: 3 }),
         Extras::Subscribed => role.started_actions.push(Action::Subscribe { topic: 1 }),
+        Extras::SubscribedPublished => {
+            role.started_actions.push(Action::Subscribe { topic: 1 });
+            role.started_actions.push(Action::Publish { topic: 1, id: 77 });
+        }
     }
     // only a timer parked in `try_send` for mailbox space and the broker's fan-out hold a strong
     // temporary across steps; `interval` upgrades, force-sends and lets go within one poll
-    let temporaries = matches!(extras, Extras::IntervalWithSlow | Extras::Subscribed);
+    let temporaries = matches!(extras, Extras::IntervalWithSlow | Extras::Subscribed | Extras::SubscribedPublished);
     let instant_ticks = matches!(extras, Extras::Interval | Extras::TwoIntervals);
     let desc = format!("lifetime mailbox={} extras={:?} early={} stream={} clients={}", mailbox.name(), extras, early, stream, names.join(" | "));
     let ps = ProgScene { variant: crate::progscene::current_variant(),
@@ -318,11 +324,11 @@ fn make_case_s(picks: &[usize], extras: Extras, mailbox: Mailbox, early: u32, bo
     }
 }
 
-fn cases(tier: Tier) -> Vec<Case> {
+fn base_cases(tier: Tier) -> Vec<Case> {
     let mut v = vec![];
     let n = scripts().len();
     let mbs: &[Mailbox] = if tier == Tier::Quick { &[Mailbox::U, Mailbox::B(0)] } else { &[Mailbox::U, Mailbox::B(0), Mailbox::B(1)] };
-    let extras = [Extras::None, Extras::Interval, Extras::TwoIntervals, Extras::IntervalWithSlow, Extras::DelayedExec, Extras::Subscribed];
+    let extras = [Extras::None, Extras::Interval, Extras::TwoIntervals, Extras::IntervalWithSlow, Extras::DelayedExec, Extras::Subscribed, Extras::SubscribedPublished];
     for &mb in mbs {
         for &ex in &extras {
             // the owner script can appear at most once
@@ -386,6 +392,16 @@ fn cases(tier: Tier) -> Vec<Case> {
         }
     }
     v
+}
+
+fn cases(tier: Tier) -> Vec<Case> {
+    // neutral re-configurations (see check::widen). Quick tier: single-script cases only.
+    // The stream pass puts the timer / subscription scenes on the other event loop (the plain
+    // scenes have their own stream cases above); restarts cannot be expressed there.
+    let plain = |d: &str| d.contains("stream=false") && d.contains("early=0");
+    let sized = move |d: &str| plain(d) && (tier == Tier::Thorough || !d.contains(" | "));
+    let on_stream = move |d: &str| sized(d) && !d.contains("restart") && !d.contains("extras=None");
+    crate::check::widen(&|| base_cases(tier), &sized, &sized, Some(&on_stream))
 }
 
 pub fn property() -> Property {
